@@ -174,3 +174,42 @@ def _job(args):
                 i, j = np.unravel_index(np.argmax(np.abs(got - expf)), got.shape)
                 viol.append(("large:permanent-ratio", f"{n - 2} plus ensembles in blocks {comp}: P[{i},{j}] = {got[i, j]} but the permanents give {expf[i, j]}", W2, locks))
     return comp, offset, done, sorted(routes), viol[:4]
+
+
+def big_block_job(n):
+    """One tight block of n > 12 paths: inf_retis falls back to a Monte-Carlo estimate.  Its value is not
+    decided (statistical), but what the property derives for every P is: finite, zero wherever the weight is
+    zero, rows and columns of the idle block sum to one."""
+    from checks import c02
+
+    W = np.zeros((n + 2, n + 2))
+    W[0, 0] = 1.0
+    for i in range(n):
+        reach = min(i + 2, n)
+        vals = sorted((1 + ((i * 7 + j * 5) % 3) for j in range(reach)), reverse=True)  # rows not proportional to 0/1 rows
+        for j in range(reach):
+            W[1 + i, 1 + j] = float(vals[j])
+    st = c02.make_state(n + 2)
+    viol = []
+    done = 0
+    for order in (list(range(1, n + 1)), list(range(n, 0, -1))):
+        perm = [0] + order + [n + 1]
+        W2 = W[perm, :]
+        for locks in ([0] * (n + 1) + [1], [1] + [0] * n + [1]):
+            st.routes = set()
+            try:
+                got = np.array(st.inf_retis(abs(W2), np.array(locks, dtype=float)), dtype=float)
+            except Exception as e:  # noqa: BLE001
+                viol.append(("large:raised", f"block of {n}: inf_retis raised {type(e).__name__}: {e}", W2, locks))
+                continue
+            done += 1
+            idle = [k for k in range(n + 2) if not locks[k]]
+            blk = got[np.ix_(idle, idle)]
+            if not np.all(np.isfinite(got)):
+                viol.append(("large:not-finite", f"block of {n}: non-finite probabilities", W2, locks))
+            elif np.any((W2 == 0) & (got != 0)):
+                i, j = np.argwhere((W2 == 0) & (got != 0))[0]
+                viol.append(("large:zero-pattern", f"one block of {n} paths (Monte-Carlo route {sorted(st.routes)}): P[{i},{j}] = {got[i, j]} where the weight is zero", W2, locks))
+            elif np.max(np.abs(blk.sum(0) - 1)) > 1e-6 or np.max(np.abs(blk.sum(1) - 1)) > 1e-6:
+                viol.append(("large:doubly-stochastic", f"one block of {n} paths: row/column sums differ from 1", W2, locks))
+    return ("bigblock", n), 0, done, sorted(st.routes), viol[:4]
